@@ -1,4 +1,4 @@
-"""Random mixed-graph generators in integer space (node i <-> Variable(f"V{i:02d}"))."""
+"""Random mixed-graph generators in integer space (node i <-> Variable(vname(i)))."""
 from __future__ import annotations
 
 import itertools as itt
@@ -6,7 +6,34 @@ import random
 
 
 def vname(i: int) -> str:
-    return f"V{i:02d}"
+    """order-preserving name table (int order == Python string order of the names):
+    0..99 A00..A99 (ordinary variables), 200..299 T_A00.. (transport nodes), 1000 pi* (target domain),
+    1001.. pi1.. (source domains), 2000.. u_0.. (latents of the LV-DAG)"""
+    if i < 100:
+        return f"A{i:02d}"
+    if 200 <= i < 300:
+        return f"T_A{i-200:02d}"
+    if i == 1000:
+        return "pi*"
+    if 1000 < i < 1010:
+        return f"pi{i-1000}"
+    if 2000 <= i < 2010:
+        return f"u_{i-2000}"
+    raise ValueError(i)
+
+
+def name_to_int(name: str) -> int:
+    if name.startswith("T_A"):
+        return 200 + int(name[3:])
+    if name.startswith("A"):
+        return int(name[1:])
+    if name == "pi*":
+        return 1000
+    if name.startswith("pi"):
+        return 1000 + int(name[2:])
+    if name.startswith("u_"):
+        return 2000 + int(name[2:])
+    raise ValueError(name)
 
 
 def rand_graph(rng: random.Random, nmin=0, nmax=7, acyclic=True, pd=None, pb=None):
@@ -90,7 +117,7 @@ def to_nx_mixed(g):
 
 
 def vint(v) -> int:
-    return int(v.name[1:])
+    return name_to_int(v.name)
 
 
 def V(i):
